@@ -7,6 +7,8 @@ from ..rat import rat, frac, round_once_eq, tol_eq
 from ..symtrace import Sym
 from .. import gen_geom
 from .. import c06_route
+from .. import history
+from .. import c06_paths as P
 
 PROPERTY = "C06"
 LEAN_MODULE = "Proofs.C06"
@@ -27,7 +29,10 @@ THEOREMS = [_T + n for n in [
     "C06_boundsExact_satisfiable",
     # follow-up 2: the buffered time extent from the coordinates, the band of the time IoU, the pipeline corollary
     "timeIoU_band", "C06_extent_band", "C06_extent_band_exact", "C06_extent_exact", "C06_buffered_time_band",
-    "C06_buffered_time_exact", "C06_pipeline_extent_within", "C06_pipeline_extent_ideal", "C06_pipeline_affinity_band"]]
+    "C06_buffered_time_exact", "C06_pipeline_extent_within", "C06_pipeline_extent_ideal", "C06_pipeline_affinity_band",
+    # follow-up 3: histories (calls in one process on shared / changed objects, caches) and the binding of arguments
+    "C06_history", "C06_history_keyed_cache", "C06_history_full_key_cache", "C06_history_partial_key_cache_not_free",
+    "C06_history_memo_dropped", "C06_history_memo_kept_not_free", "C06_bind_wellformed", "C06_pinned_sig_wellformed"]]
 LEVEL_TEXT = ("Lean theorems over the model of compute_affinity (everything GEOS computes is a parameter): the IoU and "
               "time-IoU formulas (range, symmetry, self, zero, shift), rectangle closed forms, and for the dispatcher "
               "range under `Sane`, symmetry / self = 1 / time-disjoint = 0 under `Sound`, the box closed form under "
@@ -44,7 +49,13 @@ LEVEL_TEXT = ("Lean theorems over the model of compute_affinity (everything GEOS
               "explicit band around the IoU of the ideal extents [max(s - tb, 0), e + tb] whenever the reported extent is "
               "within [rho, kappa] buffers of the raw bounds, the band is that IoU itself for rho = kappa = 1, and the "
               "model of buffer_shapely_geometry (C11) under its GEOS contracts meets the extent condition; the band is "
-              "evaluated on every time-branch pair with a buffered side.")
+              "evaluated on every time-branch pair with a buffered side.  Calls and histories: Python's binding of positional / "
+              "keyword / omitted arguments is modelled on a signature table (`bindCall`), proved to make the same call in every "
+              "style for every well-formed signature (C06_bind_wellformed), and the signature of the imported function is "
+              "re-extracted and shown well formed on every run; sequences of calls in one process on reused and changed "
+              "geometry objects are judged step by step by the pure model, which is exactly history freedom (C06_history); a "
+              "cache keyed by the whole call is proved invisible (C06_history_full_key_cache), one that forgets the buffers and "
+              "a shape memoised on an object across model_copy / assignment are proved visible.")
 LEVEL_NOTE = ("Unmodelled: GEOS overlay, buffer and area in binary64 (parameters of the model; `Sane` and `BoundsExact` checked "
               "exactly and `Sound` up to 2^-40 on every measured value).  GEOS's buffer is polygonal: the band of the time-only "
               "affinity uses rho = 1 for points (circle vertices on the axes) and rho = 0.9951 for line ends (round caps, "
@@ -55,19 +66,44 @@ LEVEL_NOTE = ("Unmodelled: GEOS overlay, buffer and area in binary64 (parameters
               "the converted polygons (`AreaExact`: shoelace area) are checked as contracts.  That binary64 round-to-nearest obeys `IsRounding` "
               "(monotone, exact on 0 and 1, idempotent, exact doubling) is assumed, not proved; the driver's executable "
               "`rnd64` is compared with Python's correctly rounded float(Fraction) on every run.  "
+              "Histories: the model is pure (one answer per step from the content the objects carry then); C06_history says that "
+              "agreement on every history is the same as no reachable state changing an answer, C06_history_keyed_cache that a "
+              "cache keyed by anything that determines the affinity is invisible, and two concrete witnesses (a cache that "
+              "forgets the buffers, a shape memoised on the object that survives model_copy / assignment) are proved not to be; "
+              "the histories run are finitely many sequences of 3-5 calls.  Call styles: Python's argument binding is modelled "
+              "(`bindCall`) on the signature table re-extracted by introspection; a buffer passed as float32 is only exercised "
+              "where float32 arithmetic is exact.  "
               "Known findings: argument-order dependence and self-affinity just below 1, both <= 2^-40, in the area branch "
               "(they come from GEOS, i.e. from `Sound` failing in the last bits, not from the arithmetic of compute_affinity). "
               "Model tied to the code by regenerated obligations and generator-bounded correspondence.")
 TECHNIQUE = ("Lean 4 proof over model with GEOS as a parameter under explicit contracts, in exact and in rounding arithmetic; "
              "symbolic-trace equality (whole function, all 81 type pairs, rounding-aware) and table obligations regenerated "
              "from source; differential correspondence over all 81 type pairs, bit-exact against a binary64 evaluation of "
-             "the model; property monitor on real outputs")
-RULE = ("all 81 ordered type pairs x buffers on dyadic grids (time buffers from 1/8 s to 4 s) and with arbitrary binary64 "
+             "the model; property monitor on real outputs, also along histories of calls on reused objects and over call styles / "
+             "construction paths resolved by the modelled argument binding")
+RULE = ("histories (affinity_history): 120 / 600 sequences of 3-5 calls in one process - a pair, neighbours of it (other buffers, "
+        "the declared defaults passed and omitted, one or both geometries moved in time, the pair swapped, a geometry against "
+        "itself), the pair again; half of the neighbour steps reuse the live geometry objects of the step before: coordinates "
+        "re-assigned, model_copy(update=...) shallow / deep, copy.copy / deepcopy + assignment, the same objects with other "
+        "buffers or in the other order, optionally after compute_bounds / geometry_to_shapely / buffer_geometry were called on "
+        "them; every step judged like a plain pair (theorem C06_history), arguments snapshot before / after every call.  "
+        "calls (affinity_call): every ordered type pair x 9 call styles (positional, mixed, all keywords in another order, each "
+        "buffer omitted) x 18 ways of building the geometry objects (constructor with lists / tuples / ints / numpy scalars / "
+        "numpy arrays, model_validate, JSON, attributes, dump-and-validate, copy / deepcopy / model_copy / pickle, a subclass) x "
+        "buffers as float / int / numpy float64 / float32 / int64 / bool, resolved by the model's argument binding on the "
+        "signature extracted by introspection (C06_bind_wellformed).  near-identical pairs (every vertex, or some, moved by one "
+        "ulp / 1e-12 relative / a unit round trip x*1000/1000, x/1000*1000, x/3*3) of all nine types incl. buffered lines / points: "
+        "full monitor on 4 / 24 rounds, the range clause alone (affinity_range) on 35 / 300 rounds.  touching / overlapping / "
+        "missing extents by one ulp ... 2^-20 at magnitudes 1 ... 2^20 s and up to MAX_FREQUENCY, the clamp of a buffered time "
+        "stamp at 0, extents of one ulp; geometries with 17 / 257 / 1025 vertices or parts; the product time buffer x frequency "
+        "buffer x ordered type pair on fixed samples (a line with a bend at its latest time, holes, singleton multi-geometries).  "
+        "all 81 ordered type pairs x buffers on dyadic grids (time buffers from 1/8 s to 4 s) and with arbitrary binary64 "
         "coordinates, self pairs (aliased and "
         "not), touching / nested / zero-extent / tiny-overlap / full-band placements, exhaustive small interval / box grids, "
         "shifted pairs (time buffers up to 4 s, events up to 1000 s, offsets up to 1000 s); non-trivial = the implementation returned a number and at least one of the two orders is positive or "
         "the pair is disjoint in time; distinct = distinct (operation, input)")
-TRUSTED = ["shapely/GEOS area, intersection, buffer, bounds (measured per case; contracts Sane and BoundsExact exactly, Sound up to 2^-40; "
+TRUSTED = ["inspect.signature of the imported compute_affinity (names, order, kinds, defaults) is the signature Python binds calls with",
+           "shapely/GEOS area, intersection, buffer, bounds (measured per case; contracts Sane and BoundsExact exactly, Sound up to 2^-40; "
            "the buffered shapes' time / frequency extents and areas against the raw coordinates within [rho, kappa] buffers; "
            "AreaExact: area of converted polygons = shoelace area within 2^-40)",
            "GEOS's buffer of a scaled point / line geometry covers the disc of radius rho around every vertex and stays within "
@@ -84,7 +120,11 @@ ASSUMPTIONS = ["geometries are valid and polygonal ones non-self-intersecting (g
                "binary64 arithmetic is exact on the dyadic grids used for the round-once comparisons",
                "binary64 round-to-nearest-even obeys `IsRounding` on the magnitudes that occur (no overflow)",
                "GEOS satisfies `Sound` exactly only in exact arithmetic; in binary64 it does up to a relative 2^-40 (monitored)"]
-NOT_COMPARED = ["negative buffers (outside the property's quantifier; modelled and tied symbolically, not run differentially)",
+NOT_COMPARED = ["the values of the two default buffers (the property quantifies over all buffers; the documented order of the four parameters "
+                "and 'an omitted buffer is the declared default' are what the signature obligation and affinity_call pin)",
+                "the last bit of the result when a buffer is passed as numpy float32 (only powers of two on the small grid are "
+                "passed that way, where float32 arithmetic is exact)",
+                "negative buffers (outside the property's quantifier; modelled and tied symbolically, not run differentially)",
                 "the extent band / buffered-shape contracts are not evaluated in the regimes of the C11 known findings: a zero time "
                 "or frequency buffer (C11-zero-buffer-factor; outside the quantifier for point / line types), a line with an exact "
                 "reversal (C11-line-reversal; not simple), a buffer >= 1e4 times the extent of a line part on that axis "
@@ -587,7 +627,8 @@ def _holds_pair(ctx, inp, io):
         return None
     x, y = frac(a12), frac(a21)
     if not v["range"]:
-        return f"range: compute_affinity = {float(x)!r} is outside [0, 1]"
+        bad = x if not 0 <= x <= 1 else y
+        return f"range: compute_affinity = {float(bad)!r} is outside [0, 1]"
     if not v["disjoint"]:
         return f"disjoint: prepared geometries do not overlap in time but the affinity is {float(x)!r}"
     area = info["branch"] == "area"
@@ -661,6 +702,228 @@ OPS = {
 }
 
 
+# ---------------------------------------------------------------- follow-up 3: histories, construction paths, call styles
+# (HISTORIES.md)  Every step of a history and every way of building / passing the arguments is judged by the same
+# monitor and the same model as a plain pair: the model is pure, so the content the objects carry at that step and the
+# call the arguments bind to (Lean: `bindCall` on the signature table, theorem C06_bind_wellformed) fix the answer.
+_BASE = Op("affinity", None, to_model=lambda inp: _to_model(inp), compare=lambda inp, io, mo: _compare_pair(inp, io, mo),
+           holds=lambda ctx, inp, io: _holds_pair(ctx, inp, io), nontrivial=lambda inp, out: _nontrivial(inp, out),
+           mode="tolerance", model_op="affinity_pair")
+
+
+def _h_build(inp):
+    return {"g1": P.build(inp["g1"], inp.get("build", "validate")), "g2": P.build(inp["g2"], inp.get("build", "validate")),
+            "tb": _f(inp["tb"]), "fb": _f(inp["fb"]), "omit": bool(inp.get("omit"))}
+
+
+def _h_call(args):
+    from soundevent.evaluation import compute_affinity
+    if args.get("omit"):
+        # a plain call: the step's buffers are the declared defaults (after calls with other buffers nothing of those
+        # may linger in module state)
+        return [compute_affinity(args["g1"], args["g2"]), compute_affinity(args["g2"], args["g1"])]
+    a12 = compute_affinity(args["g1"], args["g2"], time_buffer=args["tb"], freq_buffer=args["fb"])
+    a21 = compute_affinity(args["g2"], args["g1"], time_buffer=args["tb"], freq_buffer=args["fb"])
+    return [a12, a21]
+
+
+def _h_canon(inp, args, res):
+    return {"val": [rat(float(res[0])), rat(float(res[1]))]}
+
+
+def _h_snapshot(args):
+    return [gen_geom.from_data(args["g1"]), gen_geom.from_data(args["g2"]), repr(args["tb"]), repr(args["fb"])]
+
+
+def _same_content(obj, gj):
+    return obj is not None and obj.type == gj["type"] and \
+        gen_geom.from_data(obj)["coordinates"] == gen_geom._enc_f(gen_geom.coords_float(gj))
+
+
+def _h_modify(args, inp, how):
+    """the live geometry objects of the previous step turned into this step's geometries: coordinates re-assigned,
+    model_copy(update=...) shallow / deep, copy.copy / deepcopy + assignment, the very same objects with other
+    buffers, the same objects in the other order; with `prime+` the old objects are first used in compute_bounds /
+    geometry_to_shapely / buffer_geometry.  Nothing remembered from the earlier use may survive."""
+    primed = how.startswith("prime+")
+    how2 = how[len("prime+"):] if primed else how
+    olds = [args["g1"], args["g2"]]
+    if primed:
+        for o in olds:
+            P.prime(o)
+    if how2 == "swap":
+        olds = olds[::-1]
+    new = []
+    for o, key in zip(olds, ("g1", "g2")):
+        gj = inp[key]
+        if how2 in ("same", "swap"):
+            n = o if _same_content(o, gj) else None
+        else:
+            n = P.change(o, gj, how2)
+        new.append(n if n is not None else P.build(gj))
+    return {"g1": new[0], "g2": new[1], "tb": _f(inp["tb"]), "fb": _f(inp["fb"]), "omit": bool(inp.get("omit"))}
+
+
+H_REUSE = tuple(P.REUSE) + ("prime+assign", "prime+copy_update", "prime+deep_copy_update", "prime+copy_assign")
+
+
+def _shift_geom_f(gj, d):
+    """time shift whose result is again a binary64 number (the identity on the dyadic grids)"""
+    g = _shift_geom(gj, d)
+
+    def fl(c):
+        if isinstance(c, list):
+            return [fl(x) for x in c]
+        return rat(float(frac(c)))
+    return {"type": g["type"], "coordinates": fl(g["coordinates"])}
+
+
+def _min_time(gj):
+    return _raw_time_bounds(gj)[0]
+
+
+def _h_variants(x, rng):
+    """neighbours of a pair: the same geometries with other buffers, one or both geometries moved in time (far away:
+    disjoint; a little: another overlap), the pair swapped, a geometry against itself"""
+    low = x["g1"]["type"] in LOW_DIM or x["g2"]["type"] in LOW_DIM
+    pool = [("1/4", "1/2"), ("1/2", "1"), ("2", "1"), ("1/8", "4"), ("4", "1/4")] + ([] if low else [("0", "0")])
+    plain = {k: v for k, v in x.items() if k != "omit"}
+    out = [{**plain, "tb": tb, "fb": fb} for tb, fb in pool if (tb, fb) != (x["tb"], x["fb"])]
+    # the declared defaults, passed explicitly and omitted (0.01 s is not on the grid: tolerance)
+    dflt = {n: v["num"] for n, v in _doc_sig()[2:]}
+    if frac(dflt["time_buffer"]) > 0 and frac(dflt["freq_buffer"]) > 0:
+        for omit in (True, False):
+            out.append({**plain, "tb": dflt["time_buffer"], "fb": dflt["freq_buffer"], "mode": "free", "omit": omit})
+    x = plain
+    for d in ("10", "1/2", "-1/4", "3", "1/8"):
+        if _min_time(x["g2"]) + Fraction(d) >= 0:
+            out.append({**x, "g2": _shift_geom_f(x["g2"], d)})
+        if min(_min_time(x["g1"]), _min_time(x["g2"])) + Fraction(d) >= 0:
+            out.append({**x, "g1": _shift_geom_f(x["g1"], d), "g2": _shift_geom_f(x["g2"], d)})
+        if _min_time(x["g1"]) + Fraction(d) >= 0:
+            out.append({**x, "g1": _shift_geom_f(x["g1"], d)})
+    out.append({**x, "g1": x["g2"], "g2": x["g1"]})
+    out.append({**x, "g2": x["g1"]})
+    return out
+
+
+def _impl_range(inp):
+    from soundevent.evaluation import compute_affinity
+    g1, g2 = gen_geom.to_data(inp["g1"]), gen_geom.to_data(inp["g2"])
+    tb, fb = _f(inp["tb"]), _f(inp["fb"])
+    return {"val": [rat(float(compute_affinity(g1, g2, time_buffer=tb, freq_buffer=fb))),
+                    rat(float(compute_affinity(g2, g1, time_buffer=tb, freq_buffer=fb)))]}
+
+
+def _holds_range(ctx, inp, io):
+    """the clauses that need nothing but the two outputs: both in [0, 1] (`judgeObs`, theorem C06_model_holds), and
+    equal up to the last bits (a larger difference is an asymmetry; the last bits are known finding C06-2)"""
+    if "raise" in io:
+        return "compute_affinity raised " + str(io["raise"])
+    a12, a21 = io["val"]
+    v = ctx.model("judge", {"a12": a12, "a21": a21, "same": False, "extent_pos": False, "disjoint": False})
+    if not v["range"]:
+        x = frac(a12) if not 0 <= frac(a12) <= 1 else frac(a21)
+        return f"range: compute_affinity = {float(x)!r} is outside [0, 1]"
+    if abs(frac(a12) - frac(a21)) > ULP_BOUND:
+        return f"asymmetry: compute_affinity(a, b) = {float(frac(a12))!r} but (b, a) = {float(frac(a21))!r}"
+    return None
+
+
+# the range clause alone on many near-identical pairs (no measurement of shapes: cheap)
+OPS["affinity_range"] = Op("affinity_range", _impl_range, holds=_holds_range, compare=lambda inp, io, mo: None,
+                           nontrivial=lambda inp, out: "val" in out and frac(out["val"][0]) > 0, mode="exact", no_model=True)
+
+OPS["affinity_history"] = history.history_op("affinity_history", _BASE, _h_build, _h_call, _h_canon,
+                                             snapshot=_h_snapshot, modify=_h_modify)
+
+_SIG = {}
+
+
+def _extracted_sig():
+    """the signature of the imported compute_affinity, by introspection (None: not introspectable)"""
+    if "sig" not in _SIG:
+        try:
+            from soundevent.evaluation import compute_affinity
+            _SIG["sig"] = P.extract_signature(compute_affinity)
+        except Exception:  # noqa: BLE001
+            _SIG["sig"] = None
+    return _SIG["sig"]
+
+
+PINNED_DEFAULTS = {"time_buffer": {"num": rat(0.01)}, "freq_buffer": {"num": "100"}}
+
+
+def _doc_sig():
+    """the documented interface (the four parameters in the documented order) with the defaults the imported function
+    declares today: what a call is resolved against.  (That the imported signature *is* of this form is the
+    regenerated obligation `signature`; a function that declares the buffers in another order still has its
+    positional calls judged by the documented order.)"""
+    ext = _extracted_sig() or []
+    d = {n: v for n, v in ext if v is not None}
+    return [["geometry1", None], ["geometry2", None]] + [[n, d.get(n) or PINNED_DEFAULTS[n]] for n in ("time_buffer", "freq_buffer")]
+
+
+def _resolve(inp):
+    """the base input (geometries and buffers) the call of `inp` binds to, by the model's `bindCall`"""
+    k = "resolve:" + jkey(inp)
+    if k not in _CACHE:
+        def arg(slot):
+            return {"geom": inp[slot]} if slot in ("g1", "g2") else {"num": inp[slot]}
+        v = _model("bind", {"sig": _doc_sig(), "pos": [arg(s_) for s_ in inp["pos"]],
+                            "kw": [[P.PARAM[s_], arg(s_)] for s_ in inp["kw"]]})
+        _CACHE[k] = None if "raise" in v else {**v["val"], "mode": inp.get("mode", "free")}
+    return _CACHE[k]
+
+
+def _impl_call(inp):
+    from soundevent.evaluation import compute_affinity
+    b1, b2 = inp.get("build", ["validate", "validate"])
+    n1, n2 = inp.get("num", ["float", "float"])
+    g1, g2 = P.build(inp["g1"], b1), P.build(inp["g2"], b2)
+    vals = {"g1": g1, "g2": g2, "tb": P.num(inp["tb"], n1), "fb": P.num(inp["fb"], n2)}
+    a12 = P.call(compute_affinity, vals, inp["pos"], inp["kw"])
+    a21 = P.call(compute_affinity, {**vals, "g1": g2, "g2": g1}, inp["pos"], inp["kw"])
+    out = {"val": [rat(float(a12)), rat(float(a21))]}
+    if not isinstance(a12, (int, float)) or isinstance(a12, bool):
+        out["type"] = type(a12).__name__
+    for g, gj in ((g1, inp["g1"]), (g2, inp["g2"])):
+        if not _same_content(g, gj):
+            out["mutated"] = gen_geom.from_data(g)
+    return out
+
+
+def _call_to_model(inp):
+    r = _resolve(inp)
+    return _to_model(r) if r is not None else {"g1": inp["g1"], "g2": inp["g2"], "tb": "-1", "fb": "-1"}
+
+
+def _call_compare(inp, io, mo):
+    r = _resolve(inp)
+    if r is None:
+        return None if io.get("raise") == "type" else "the model's binding raises TypeError, the implementation does not"
+    return _compare_pair(r, io, mo)
+
+
+def _call_holds(ctx, inp, io):
+    r = _resolve(inp)
+    if r is None:
+        return None
+    if "raise" in io:
+        return (f"compute_affinity raised {io['raise']} when called with positional {inp['pos']} / keyword {inp['kw']} "
+                f"arguments built as {inp.get('build')} / numbers as {inp.get('num')}")
+    msg = _holds_pair(ctx, r, io)
+    if msg:
+        return (f"call with positional {inp['pos']} and keyword {inp['kw']} arguments (geometries built as {inp.get('build')}, "
+                f"buffers passed as {inp.get('num')}), i.e. time_buffer={float(frac(r['tb']))!r} freq_buffer={float(frac(r['fb']))!r}: " + msg)
+    return None
+
+
+OPS["affinity_call"] = Op("affinity_call", _impl_call, to_model=_call_to_model, compare=_call_compare, holds=_call_holds,
+                          nontrivial=lambda inp, out: _resolve(inp) is not None and _nontrivial(_resolve(inp), out),
+                          mode="tolerance", model_op="affinity_pair")
+
+
 def _run_pairs(ctx, cases):
     """route every pair to the operation whose comparison mode applies to it"""
     closed, geos = [], []
@@ -727,9 +990,24 @@ def _tables(ctx):
                        {"op": "affinity_closed", "extracted": tabs["TIME_GEOMETRY_TYPES"]})
 
 
+def _signature_tie(ctx):
+    """Tie 1: the signature of the imported compute_affinity, by introspection, is one the documented interface admits
+    (`WellFormedSig`: geometry1, geometry2, time_buffer, freq_buffer in this order, the buffers optional with
+    non-negative numeric defaults).  With C06_bind_wellformed every call style binds to the same call."""
+    ext = _extracted_sig()
+    if ext is None:
+        ctx.pre_failed.append("signature")
+        ctx.fail("obligation", "signature", detail="the signature of compute_affinity cannot be introspected",
+                 extra={"op": "affinity_call"})
+        return
+    ctx.obligation("signature",
+                   f"theorem sig_compute_affinity : SE.Affinity.WellFormedSig {P.lean_sig(ext)} = true := by\n  decide +kernel\n",
+                   {"op": "affinity_call", "extracted": ext})
+
+
 # ---------------------------------------------------------------- tie 1b: symbolic traces
-class _GeomStub:
-    """a geometry stand-in: `.type` and `.coordinates` only"""
+class _GeomStub(c06_route.CacheFriendly):
+    """a geometry stand-in: `.type` and `.coordinates` (and what a cache key may be built from)"""
 
     def __init__(self, type, coordinates=None):
         self.type = type
@@ -762,7 +1040,7 @@ def _symbolic_ties(ctx):
 
     # (a) the area branch: areas and the intersection area symbolic
     V = ["a", "b", "i"]
-    a, b, i = [Sym.var(n) for n in V]
+    a, b, i = [c06_route.hvar(n) for n in V]
     inter = {("x", "y"): i}
     shapes = {"x": _ShapeStub("x", a, inter), "y": _ShapeStub("y", b, inter)}
 
@@ -774,7 +1052,7 @@ def _symbolic_ties(ctx):
             return A.compute_affinity(_GeomStub("Polygon", "x"), _GeomStub("Polygon", "y"))
         finally:
             A.geometry_to_shapely = saved
-    ctx.sym_tie("ext_iou", run_area, V, "Rat", "some (SE.Affinity.iouC a b i)",
+    ctx.sym_tie("ext_iou", c06_route.isolated(run_area, A, O), V, "Rat", "some (SE.Affinity.iouC a b i)",
                 tactic="unfold ext_iou SE.Affinity.iouC\n  se_close", meta={"op": "affinity_geos"})
 
     # (b), (c) need the name `compute_affinity_in_time`; if the code no longer has it the marker-free traces of the
@@ -785,7 +1063,7 @@ def _symbolic_ties(ctx):
 
     # (b) the time branch on symbolic bounds
     BV = ["s1", "l1", "e1", "h1", "s2", "l2", "e2", "h2"]
-    sy = {n: Sym.var(n) for n in BV}
+    sy = {n: c06_route.hvar(n) for n in BV}
 
     def run_time():
         saved = A.compute_bounds
@@ -795,7 +1073,7 @@ def _symbolic_ties(ctx):
                                               _GeomStub("TimeInterval", tuple(sy[n] for n in BV[4:])))
         finally:
             A.compute_bounds = saved
-    ctx.sym_tie("ext_time_iou", run_time, BV, "Rat", "some (SE.Affinity.timeIoU s1 e1 s2 e2)",
+    ctx.sym_tie("ext_time_iou", c06_route.isolated(run_time, A, O), BV, "Rat", "some (SE.Affinity.timeIoU s1 e1 s2 e2)",
                 tactic="unfold ext_time_iou SE.Affinity.timeIoU\n  se_close", meta={"op": "affinity_closed"})
 
     # (c) the whole function on time-only arguments: _prepare_geometry, buffer_geometry, buffer_timestamp, the
@@ -830,9 +1108,9 @@ def _symbolic_ties(ctx):
                 return A.compute_affinity(mk1(), mk2(), time_buffer=sy2["tb"], freq_buffer=sy2["fb"])
             finally:
                 O.data, A.compute_affinity_in_time = saved
-        return run
+        return c06_route.isolated(run, A, O)
     TV = ["t1", "u1", "t2", "u2", "tb", "fb"]
-    sy2 = {n: Sym.var(n) for n in TV}
+    sy2 = {n: c06_route.hvar(n) for n in TV}
     makers = {
         "stamp": (lambda k: (lambda: _GeomStub("TimeStamp", sy2["t" + k])), lambda k: f"(.timeStamp t{k})"),
         "interval": (lambda k: (lambda: _GeomStub("TimeInterval", [sy2["t" + k], sy2["u" + k]])),
@@ -884,7 +1162,7 @@ def _rounded_ties(ctx):
         finally:
             A.geometry_to_shapely = saved
     _custom_tie(ctx, "ext_iou_r", lambda: R.formula_obligation(
-        "ext_iou_r", run_area, ["a", "b", "i"], "SE.Affinity.iouCR rnd a b i", "SE.Affinity.iouCR"),
+        "ext_iou_r", c06_route.isolated(run_area, A), ["a", "b", "i"], "SE.Affinity.iouCR rnd a b i", "SE.Affinity.iouCR"),
         {"op": "affinity_geos"})
     if not callable(getattr(A, "compute_affinity_in_time", None)):
         return
@@ -900,7 +1178,7 @@ def _rounded_ties(ctx):
         finally:
             A.compute_bounds = saved
     _custom_tie(ctx, "ext_time_iou_r", lambda: R.formula_obligation(
-        "ext_time_iou_r", run_time, BV, "SE.Affinity.timeIoUR rnd s1 e1 s2 e2", "SE.Affinity.timeIoUR"),
+        "ext_time_iou_r", c06_route.isolated(run_time, A), BV, "SE.Affinity.timeIoUR rnd s1 e1 s2 e2", "SE.Affinity.timeIoUR"),
         {"op": "affinity_closed"})
 
 
@@ -946,7 +1224,9 @@ def _bufs(rng, g1, g2, mode):
         if not low:
             pool += [("0", "0"), ("0", "1/2")]
         return rng.choice(pool)
-    pool = [(rat(0.01), rat(100.0)), (rat(0.05), rat(33.3)), ("1/8", "1/2"), (rat(1.5), rat(250.0)), (rat(3.0), rat(0.5))]
+    # ... frequency buffers of kilohertz too (what one uses for broadband calls): an internal cap / default only shows there
+    pool = [(rat(0.01), rat(100.0)), (rat(0.05), rat(33.3)), ("1/8", "1/2"), (rat(1.5), rat(250.0)), (rat(3.0), rat(0.5)),
+            (rat(0.02), rat(2500.0)), ("1/2", "5000")]
     if not low:
         pool.append(("0", "0"))
     return rng.choice(pool)
@@ -956,9 +1236,12 @@ def _is_simple(gj):
     """inside the quantifier: polygons valid, lines not self-intersecting (a line that retraces itself makes
     GEOS's buffer produce a degenerate ring and compute_affinity raise)"""
     if gj["type"] in ("LineString", "MultiLineString"):
-        from soundevent.geometry import geometry_to_shapely
+        # shapely directly on the coordinates (not through the library's conversion, which is code under test)
+        import shapely
         try:
-            return bool(geometry_to_shapely(gen_geom.to_data(gj)).is_simple)
+            c = gen_geom.coords_float(gj)
+            shp = shapely.LineString(c) if gj["type"] == "LineString" else shapely.MultiLineString(c)
+            return bool(shp.is_simple)
         except Exception:  # noqa: BLE001
             return False
     if gj["type"] in ("Polygon", "MultiPolygon"):
@@ -1146,6 +1429,279 @@ def _shift_cases(rng, reps):
                 yield {"g1": g1, "g2": g2, "tb": tb, "fb": fb, "d": d, "mode": "grid"}
 
 
+# ---------------------------------------------------------------- follow-up 3: generators
+def _near_identical_cases(rng, reps, types=None, kinds=None):
+    """a geometry against a copy whose coordinates (all, or some of them) moved by about one unit in the last place
+    (one ulp, 1e-12 relative, the unit round trips x*1000/1000, x/1000*1000, x/3*3, ...): the ratio of GEOS's areas is
+    then 1 +- a few ulp, and the clause "in [0, 1], never more than 1" is decided by the final clamp alone (seeded
+    C06-9).  Polygons, multipolygons, boxes, buffered lines / points (area branch) and intervals / time stamps (time
+    branch), on arbitrary binary64 coordinates and on coordinates with three / one decimals"""
+    types = types or ["Polygon", "MultiPolygon", "BoundingBox", "LineString", "MultiLineString", "Point", "MultiPoint",
+                      "TimeInterval", "TimeStamp"]
+    for _ in range(reps):
+        for ty in types:
+            g = _free_geom(rng, ty)
+            if g["type"] != ty:
+                continue
+            if rng.random() < 0.6:
+                gd = P.decimal_round(g)
+                if _is_simple(gd) and _wf(gd):
+                    g = gd
+            for kind in (kinds or P.PERTURB):
+                h = P.perturb(g, kind, rng)
+                if h == g or not _is_simple(h) or not _wf(h):
+                    continue
+                tb, fb = _bufs(rng, g, h, "free")
+                yield {"g1": g, "g2": h, "tb": tb, "fb": fb, "mode": "free"}
+                if ty == "BoundingBox" and kind in ("ulp", "rt1000"):
+                    c = g["coordinates"]
+                    ring = [[c[0], c[1]], [c[2], c[1]], [c[2], c[3]], [c[0], c[3]], [c[0], c[1]]]
+                    yield {"g1": {"type": "Polygon", "coordinates": [ring]}, "g2": h, "tb": tb, "fb": fb, "mode": "free"}
+
+
+GEOS_NEAR = ["Polygon", "MultiPolygon", "LineString", "MultiLineString", "Point", "MultiPoint"]
+NEAR_KINDS = ["ulp", "ulp_some", "rt1000", "rt3", "rt_mixed"]
+
+
+def _wf(gj):
+    """inside the quantifier: the library's own validation accepts the geometry as it is (a perturbed or rounded copy
+    can lose that: an interval or box out of order, a line of a MultiLineString that no longer starts before it ends,
+    a LineString that validation would turn around)"""
+    try:
+        obj = gen_geom.to_data(gj)
+    except Exception:  # noqa: BLE001
+        return False
+    return _same_content(obj, gj)
+
+
+def _pow2(k):
+    return Fraction(2) ** k
+
+
+def _is_float(q):
+    return Fraction(float(q)) == q
+
+
+def _coords_are_floats(gj):
+    ok = [True]
+
+    def chk(c):
+        if isinstance(c, list):
+            for x in c:
+                chk(x)
+        elif not _is_float(frac(c)):
+            ok[0] = False
+    chk(gj["coordinates"])
+    return ok[0]
+
+
+def _time_formula_exact(case):
+    """every intermediate of the time-only computation (the buffer of a time stamp, both durations, overlap, union) is
+    a binary64 number, so that the implementation rounds once, in the final division"""
+    ext = []
+    tb = frac(case["tb"])
+    for g in (case["g1"], case["g2"]):
+        s_, e_ = _raw_time_bounds(g)
+        if g["type"] == "TimeStamp":
+            if not (_is_float(s_ - tb) and _is_float(e_ + tb)):
+                return False
+            s_, e_ = max(s_ - tb, Fraction(0)), e_ + tb
+        ext.append((s_, e_))
+    (s1, e1), (s2, e2) = ext
+    inter = max(Fraction(0), min(e1, e2) - max(s1, s2))
+    steps = [min(e1, e2) - max(s1, s2), e1 - s1, e2 - s2, (e1 - s1) + (e2 - s2), (e1 - s1) + (e2 - s2) - inter]
+    return all(_is_float(x) for x in steps)
+
+
+def _magnitude_boundary_cases():
+    """tolerance-sized offsets around every comparison the property pins (extents touching / overlapping / missing each
+    other, the clamp of a buffered time stamp at 0, the zero-union guard, extents of one unit in the last place), at
+    small and at large magnitudes.  Every coordinate is a binary64 number; where every intermediate of the time formula
+    is one as well the pair is compared round-once (`grid`), otherwise with the tolerance and, bit for bit, against the
+    binary64 evaluation of the model (`affinity_bits`)"""
+    def emit(g1, g2, tb, fb, area=False):
+        c = {"g1": g1, "g2": g2, "tb": rat(Fraction(tb)), "fb": rat(Fraction(fb)), "mode": "grid"}
+        if not (_coords_are_floats(g1) and _coords_are_floats(g2)):
+            return None
+        if area or not _time_formula_exact(c):
+            c["mode"] = "free"
+        return c
+    out = []
+    for e in (0, 12, 17, 20):                        # T = 1, 4096, 131072 (a day and a half), 1048576 seconds
+        T = _pow2(e)
+        u = _pow2(max(e, 2) - 51)                    # one unit in the last place of the largest endpoint T + 3
+        epss = sorted({u, 64 * u, max(u, _pow2(-30)), max(u, _pow2(-20))})
+        for eps in epss:
+            for d in (eps, -eps, Fraction(0)):
+                out.append(emit(_interval(T, T + 1), _interval(T + 1 - d, T + 2), 0, 0))
+                out.append(emit(_stamp(T), _interval(T + Fraction(1, 4) - d, T + 1), Fraction(1, 4), 1))
+                out.append(emit(_stamp(T), _stamp(T + Fraction(1, 2) - d), Fraction(1, 4), 1))
+                out.append(emit(_box(T, 1, T + 1, 2), _interval(T + 1 - d, T + 2), 0, 0))
+                # area branch through GEOS at large time and frequency magnitudes (measured, tolerance)
+                for F in (Fraction(1024), Fraction(2 ** 20), Fraction(gen_geom.MAXF - 2048)):
+                    out.append(emit(_box(T, F, T + 1, F + 1024), _box(T + 1 - d, F + 512, T + 2, F + 2048), 0, 0, area=True))
+            # extents of eps: self = 1, a half-overlapping neighbour, the zero-union guard next to it
+            out.append(emit(_interval(T, T + eps), _interval(T, T + eps), 0, 0))
+            out.append(emit(_interval(T, T + 2 * eps), _interval(T + eps, T + 3 * eps), 0, 0))
+            out.append(emit(_box(T, 1, T + eps, 2), _box(T, 1, T + eps, 2), 0, 0, area=True))
+            out.append(emit(_interval(T, T), _interval(T, T + eps), 0, 0))
+        out.append(emit(_interval(T, T), _interval(T, T), 0, 0))
+    # the clamp of a buffered time stamp at time 0: t - tb just below, at, just above 0
+    for tb in (Fraction(1, 4), Fraction(1), Fraction(4)):
+        for eps in (2 * tb * _pow2(-52), _pow2(-40), _pow2(-20)):
+            for d in (eps, -eps, Fraction(0)):
+                t = tb + d
+                out.append(emit(_stamp(t), _interval(0, 2 * tb), tb, 1))
+                out.append(emit(_stamp(t), _stamp(t), tb, 1))
+                out.append(emit(_stamp(t), {"type": "Point", "coordinates": [rat(t), "2"]}, tb, 1))
+    seen = set()
+    for c in out:
+        if c is not None and jkey(c) not in seen:
+            seen.add(jkey(c))
+            yield c
+
+
+def _ring_regular(n, ct, cf, rt, rf, k):
+    """a star-shaped (hence simple) ring with n vertices on the grid 2^-k"""
+    import math
+    q = 1 << k
+    pts = []
+    for i in range(n):
+        a = 2 * math.pi * i / n
+        r = 1.0 if i % 2 == 0 else 0.8
+        pts.append([rat(Fraction(round((ct + rt * r * math.cos(a)) * q), q)), rat(Fraction(round((cf + rf * r * math.sin(a)) * q), q))])
+    pts.append(list(pts[0]))
+    return pts
+
+
+def _size_cases(rng, sizes, heavy=True):
+    """geometries with many vertices / parts, around the sizes at which an implementation could switch strategy
+    (> 16, > 256, >= 1024): against an interval (time branch), a box and themselves (area branch).  Above 1000 vertices
+    the line is smooth (GEOS's mitre buffer of a jagged line takes seconds) and the multipoint only runs when `heavy`"""
+    import math
+    k = 12
+    q = 1 << k
+    for n in sizes:
+        big_n = n > 1000
+        poly = {"type": "Polygon", "coordinates": [_ring_regular(n, 8, 8, 4, 4, k)]}
+        ts = sorted(rng.sample(range(4 * q, 12 * q), n))
+        if big_n:
+            fs = [round((8 + 3 * math.sin(6 * math.pi * i / n)) * q) for i in range(n)]
+        else:
+            fs = [rng.randint(4 * q, 12 * q) for _ in range(n)]
+        line = {"type": "LineString", "coordinates": [[rat(Fraction(t, q)), rat(Fraction(f, q))] for t, f in zip(ts, fs)]}
+        mpt = {"type": "MultiPoint", "coordinates": [[rat(Fraction(rng.randint(4 * q, 12 * q), q)), rat(Fraction(rng.randint(4 * q, 12 * q), q))]
+                                                     for _ in range(n)]}
+        m = max(2, n // 16)
+        w = Fraction(8, m)
+        mpoly = {"type": "MultiPolygon", "coordinates": [[_ring_regular(16, float(4 + w * i + w / 2), 8, float(w * Fraction(2, 5)), 3, k)]
+                                                        for i in range(m)]}
+        mline = {"type": "MultiLineString", "coordinates": [[[rat(4 + w * i), rat(Fraction(rng.randint(4 * q, 12 * q), q))],
+                                                             [rat(4 + w * i + w / 2), rat(Fraction(rng.randint(4 * q, 12 * q), q))]]
+                                                            for i in range(m)]}
+        big = [poly, line, mpoly, mline] + ([mpt] if heavy or not big_n else [])
+        big = [g for g in big if _is_simple(g)]
+        partners = [_interval(6, 9), _box(6, 6, 9, 9), _stamp(Fraction(15, 2))]
+        for g in big:
+            for h in partners + [g]:
+                tb, fb = rng.choice([("1/4", "1/2"), ("1/2", "1/4"), ("1", "2")])
+                yield {"g1": g, "g2": h, "tb": tb, "fb": fb, "mode": "grid"}
+        yield {"g1": poly, "g2": mpoly, "tb": "1/4", "fb": "1/2", "mode": "grid"}
+        if heavy or not big_n:
+            yield {"g1": line, "g2": mpt, "tb": "1/4", "fb": "1/2", "mode": "grid"}
+
+
+# fixed samples, one per type, with the features a sibling branch could mishandle: a line with a bend at its latest
+# time (the buffered extent then depends on the frequency buffer: seeded C06-8), a polygon and a multipolygon part
+# with a hole, singleton multi-geometries
+_SAMPLES = {
+    "TimeStamp": [_stamp(Fraction(5, 4))],
+    "TimeInterval": [_interval(1, Fraction(9, 4))],
+    "Point": [{"type": "Point", "coordinates": ["3/2", "2"]}],
+    "LineString": [{"type": "LineString", "coordinates": [["1", "1"], ["2", "2"], ["3/2", "3"]]},
+                   {"type": "LineString", "coordinates": [["3/4", "3"], ["7/4", "5/2"]]}],
+    "Polygon": [{"type": "Polygon", "coordinates": [[["1/2", "1/2"], ["3", "1/2"], ["3", "3"], ["1/2", "3"], ["1/2", "1/2"]],
+                                                    [["1", "1"], ["1", "2"], ["2", "2"], ["2", "1"], ["1", "1"]]]}],
+    "BoundingBox": [_box(1, 1, 2, Fraction(5, 2))],
+    "MultiPoint": [{"type": "MultiPoint", "coordinates": [["3/2", "2"]]},
+                   {"type": "MultiPoint", "coordinates": [["1", "1"], ["2", "5/2"], ["5/4", "3"]]}],
+    "MultiLineString": [{"type": "MultiLineString", "coordinates": [[["1", "1"], ["2", "2"], ["3/2", "3"]]]},
+                        {"type": "MultiLineString", "coordinates": [[["1", "1"], ["2", "3/2"]], [["5/4", "3"], ["9/4", "7/2"], ["2", "4"]]]}],
+    "MultiPolygon": [{"type": "MultiPolygon", "coordinates": [
+        [[["1/2", "1/2"], ["3/2", "1/2"], ["3/2", "3"], ["1/2", "3"], ["1/2", "1/2"]]],
+        [[["2", "1/2"], ["7/2", "1/2"], ["7/2", "3"], ["2", "3"], ["2", "1/2"]],
+         [["5/2", "1"], ["5/2", "2"], ["3", "2"], ["3", "1"], ["5/2", "1"]]]]}],
+}
+
+
+def _option_product_cases(rng, thorough):
+    """the product of the two options with every ordered type pair (and the sibling samples of every type): every
+    time buffer with every frequency buffer, small against large, zero where the quantifier allows it"""
+    bufs = ["1/8", "2"] if not thorough else ["1/8", "1", "4"]
+    for t1 in gen_geom.TYPES:
+        for t2 in gen_geom.TYPES:
+            low = t1 in LOW_DIM or t2 in LOW_DIM
+            combos = [(a, b) for a in bufs for b in bufs] + ([] if low else [("0", "2"), ("2", "0")])
+            for g1 in _SAMPLES[t1]:
+                for g2 in _SAMPLES[t2]:
+                    for tb, fb in (combos if thorough else rng.sample(combos, min(3, len(combos)))):
+                        yield {"g1": g1, "g2": g2, "tb": tb, "fb": fb, "mode": "grid"}
+
+
+def _call_cases(rng, reps):
+    """every ordered type pair through the other ways of calling compute_affinity (positional, mixed, all keywords,
+    omitted buffers) x ways of building the geometries x kinds of numbers for the buffers; pairwise: every style
+    with every construction path and every number kind at least once"""
+    styles = list(P.STYLES)
+    pairs = [(t1, t2) for t1 in gen_geom.TYPES for t2 in gen_geom.TYPES]
+    n = 0
+    for _ in range(reps):
+        for t1, t2 in pairs:
+            style = styles[n % len(styles)]
+            pos, kw = P.STYLES[style]
+            defaults = "tb" not in pos + kw or "fb" not in pos + kw
+            integer = (not defaults) and n % 5 == 0
+            if integer:
+                g1, g2 = _valid(rng, t1, tmax=6, fmax=6, k=0), _valid(rng, t2, tmax=6, fmax=6, k=0)
+                tb, fb = rng.choice([("1", "2"), ("2", "1"), ("1", "1"), ("4", "2")])
+                mode = "grid"
+            elif defaults:
+                g1, g2 = _free_geom(rng, t1), _free_geom(rng, t2)
+                tb, fb = rng.choice([(rat(0.01), rat(100.0)), (rat(0.05), rat(33.3)), ("1/8", "1/2"), (rat(1.5), rat(250.0))])
+                mode = "free"       # an omitted buffer is the declared default (0.01 s is not on the grid)
+            else:
+                g1, g2 = _grid_geom(rng, t1), _grid_geom(rng, t2)
+                tb, fb = _bufs(rng, g1, g2, "grid")
+                if frac(tb) == 0 or frac(fb) == 0:
+                    tb, fb = "1/4", "1/2"
+                mode = "grid"
+            builds = []
+            for j, g in enumerate((g1, g2)):
+                b = P.BUILDS[(n * 7 + j * 5 + (n // len(styles))) % len(P.BUILDS)]
+                if integer and (n // 5 + j) % 2 == 0:
+                    b = "ctor_int"
+                builds.append(b if P.build_ok(g, b) else "ctor")
+            nums = []
+            for j, x in enumerate((tb, fb)):
+                kd = P.NUMS[(n * 3 + j + (n // len(styles))) % len(P.NUMS)]
+                nums.append(kd if P.num_ok(x, kd) and (kd != "np32" or mode == "grid") else "float")
+            yield {"g1": g1, "g2": g2, "tb": tb, "fb": fb, "mode": mode, "style": style, "pos": list(pos), "kw": list(kw),
+                   "build": builds, "num": nums}
+            n += 1
+
+
+def _history_cases(ctx, n):
+    rng = ctx.rng
+    base = list(_pair_cases(rng, 1, "grid")) + list(_pair_cases(rng, 1, "grid"))
+    base += [c for c in _pair_cases(rng, 1, "free")][::3]
+    rng.shuffle(base)
+    hs = history.sequences(rng, base, n, variants=_h_variants, reuse_hows=H_REUSE, length=(3, 5))
+    for h in hs:
+        for st in h["seq"]:
+            ctx.tally("history:" + (st.get("reuse") or "fresh"))
+    return hs
+
+
 # ---------------------------------------------------------------- run / search
 def _correspondence(ctx):
     _run_pairs(ctx, list(_exhaustive_closed(ctx.thorough())))
@@ -1164,7 +1720,8 @@ def _free_mode(ctx):
     _run_pairs(ctx, pairs)
     _run_pairs(ctx, selfs)
     # the same observations against the binary64 evaluation of the model, bit for bit
-    ctx.run_cases(OPS["affinity_bits"], pairs + selfs[:ctx.budget(240, 2400)] + list(_tiny_overlap_cases()))
+    ctx.run_cases(OPS["affinity_bits"], pairs + selfs[:ctx.budget(240, 2400)] + list(_tiny_overlap_cases())
+                  + [c for c in _magnitude_boundary_cases() if c["g1"]["type"] != "Point" and c["g2"]["type"] != "Point"])
 
 
 def _rnd64_contract(ctx):
@@ -1192,6 +1749,36 @@ def _corpus(ctx):
     ctx.run_corpus(OPS)
 
 
+def _near_identical(ctx):
+    _run_pairs(ctx, list(_near_identical_cases(ctx.rng, ctx.budget(4, 24))))
+    # ... and the range clause alone on many more pairs that go through GEOS (a ratio above 1 shows on a few per cent)
+    ctx.run_cases(OPS["affinity_range"], list(_near_identical_cases(ctx.rng, ctx.budget(35, 300), GEOS_NEAR, NEAR_KINDS)))
+
+
+def _boundaries(ctx):
+    _run_pairs(ctx, list(_magnitude_boundary_cases()))
+    _run_pairs(ctx, list(_size_cases(ctx.rng, (17, 257, 1024, 1025) if ctx.thorough() else (17, 257, 1025), heavy=ctx.thorough())))
+    ctx.exhaustive["option product"] = ("every ordered type pair (fixed samples per type incl. a line with a bend at its latest time, "
+                                        "holes, singleton multi-geometries) x time buffer x frequency buffer in {1/8, 2} (quick: 3 of the "
+                                        "combinations per pair; thorough: {1/8, 1, 4}^2 and a zero buffer on either axis)")
+    _run_pairs(ctx, list(_option_product_cases(ctx.rng, ctx.thorough())))
+
+
+def _calls(ctx):
+    cases = list(_call_cases(ctx.rng, ctx.budget(3, 8)))
+    for c in cases:
+        ctx.tally("call style:" + c["style"])
+        for b in c["build"]:
+            ctx.tally("built:" + b)
+        for k in c["num"]:
+            ctx.tally("buffer passed as:" + k)
+    ctx.run_cases(OPS["affinity_call"], cases)
+
+
+def _histories(ctx):
+    ctx.run_cases(OPS["affinity_history"], _history_cases(ctx, ctx.budget(120, 600)))
+
+
 def _bounds_contract(ctx):
     """contract BoundsExact (hypothesis of C06_time_only_closed_form, and what the route traces put in place of
     `shp.bounds` for a TimeStamp / TimeInterval / BoundingBox): `compute_bounds(g)` is the coordinate-wise
@@ -1215,18 +1802,24 @@ def run(ctx):
     _CTX = ctx
     _CACHE.clear()
     _IMPL_SEEN.clear()
+    _SIG.clear()
     ctx.stage("tables", _tables, ctx)
+    ctx.stage("signature", _signature_tie, ctx)
     ctx.stage("symbolic-ties", _symbolic_ties, ctx)
     ctx.stage("symbolic-ties (rounding arithmetic)", _rounded_ties, ctx)
     ctx.stage("symbolic-ties (closed-form buffers)", _buffer_ties, ctx)
     ctx.stage("symbolic-ties (routes of all 81 type pairs)", _route_ties, ctx)
-    ctx.stage("discharge", ctx.discharge, ["SoundeventModel.Affinity", "SoundeventModel.Ops.C06", "SoundeventModel.Tactics"])
+    ctx.stage("discharge", ctx.discharge, ["SoundeventModel.Affinity", "SoundeventModel.AffinityCall", "SoundeventModel.Ops.C06", "SoundeventModel.Tactics"])
     ctx.stage("corpus", _corpus, ctx)
     ctx.stage("bounds contract", _bounds_contract, ctx)
     ctx.stage("correspondence on grids", _correspondence, ctx)
     ctx.stage("rnd64 contract", _rnd64_contract, ctx)
     ctx.stage("free mode", _free_mode, ctx)
     ctx.stage("shift", _shifts, ctx)
+    ctx.stage("near-identical pairs", _near_identical, ctx)
+    ctx.stage("boundaries, sizes, option product", _boundaries, ctx)
+    ctx.stage("call styles and construction paths", _calls, ctx)
+    ctx.stage("histories", _histories, ctx)
 
 
 def search(ctx, failures):
@@ -1239,3 +1832,8 @@ def search(ctx, failures):
     ctx.stage("search: free pairs", lambda: _run_pairs(ctx, list(_pair_cases(ctx.rng, 4, "free"))))
     ctx.stage("search: free self pairs", lambda: _run_pairs(ctx, list(_self_cases(ctx.rng, 60, "free"))))
     ctx.stage("search: shifts", lambda: ctx.run_cases(OPS["shift"], list(_shift_cases(ctx.rng, 3))))
+    ctx.stage("search: near-identical pairs", lambda: ctx.run_cases(
+        OPS["affinity_range"], list(_near_identical_cases(ctx.rng, 150, GEOS_NEAR, NEAR_KINDS))))
+    ctx.stage("search: boundaries at magnitudes", lambda: _run_pairs(ctx, list(_magnitude_boundary_cases())))
+    ctx.stage("search: call styles", lambda: ctx.run_cases(OPS["affinity_call"], list(_call_cases(ctx.rng, 3))))
+    ctx.stage("search: histories", lambda: ctx.run_cases(OPS["affinity_history"], _history_cases(ctx, 120)))
